@@ -213,13 +213,18 @@ theorem wskel_createSwapRequest : Gen.wskel_createSwapRequest =
 theorem wskel_swapToTrusted : Gen.wskel_swapToTrusted =
     ["if{", "createSwapRequest", "nut11.AddSignatureToOutputs", "swap", "}", "swapProofs"] := rfl
 
+/-- (F19) the DLEQ check of Receive / ReceiveHTLC: per proof with a DLEQ, the keys of a keyset not seen yet are fetched
+    (`GetKeysetKeys`, which also checks the derived keyset id), then `nut12.VerifyProofsDLEQ` under THAT keyset -/
+theorem wskel_verifyProofsDLEQ : Gen.wskel_verifyProofsDLEQ =
+    ["for{", "if{", "GetKeysetKeys", "}", "nut12.VerifyProofsDLEQ", "}"] := rfl
+
 /-- `Model.receive` -/
 theorem wskel_Receive : Gen.wskel_Receive =
-    ["getActiveKeyset", "nut12.VerifyProofsDLEQ", "if{", "nut11.AddSignatureToInputs", "}", "if{", "swapToTrusted", "}else{", "if{", "AddMint", "}", "createSwapRequest", "if{", "nut11.AddSignatureToOutputs", "}", "swap", "db.IncrementKeysetCounter", "db.SaveProofs", "}"] := rfl
+    ["getActiveKeyset", "verifyProofsDLEQ", "if{", "nut11.AddSignatureToInputs", "}", "if{", "swapToTrusted", "}else{", "if{", "AddMint", "}", "createSwapRequest", "if{", "nut11.AddSignatureToOutputs", "}", "swap", "db.IncrementKeysetCounter", "db.SaveProofs", "}"] := rfl
 
 /-- `Model.receiveHTLC` -/
 theorem wskel_ReceiveHTLC : Gen.wskel_ReceiveHTLC =
-    ["getActiveKeyset", "nut12.VerifyProofsDLEQ", "if{", "nut14.AddWitnessHTLC", "if{", "AddMint", "}", "createSwapRequest", "if{", "nut14.AddWitnessHTLCToOutputs", "}", "swap", "db.IncrementKeysetCounter", "db.SaveProofs", "}"] := rfl
+    ["getActiveKeyset", "verifyProofsDLEQ", "if{", "nut14.AddWitnessHTLC", "if{", "AddMint", "}", "createSwapRequest", "if{", "nut14.AddWitnessHTLCToOutputs", "}", "swap", "db.IncrementKeysetCounter", "db.SaveProofs", "}"] := rfl
 
 /-- `Model.restoreBatches`: per batch POST restore, then POST checkstate -/
 theorem wskel_Restore : Gen.wskel_Restore =
